@@ -1688,6 +1688,23 @@ std::vector<uint8_t> StreamSim::ref_mh_periodic(bool sha256, size_t phase, uint6
 } // namespace
 
 Sim *make_stream_sim() { return new StreamSim(); }
+// the aliased windows are shared with the one-shot client (CBC calls of 2^32 bytes and more)
+const uint8_t *huge_in_window()
+{
+        build_hwin();
+        return g_hwin;
+}
+uint8_t *huge_out_window()
+{
+        build_howin();
+        return g_howin;
+}
+uint8_t *huge_out_pattern()
+{
+        build_howin();
+        return g_hopat;
+}
+size_t huge_period() { return HPER; }
 namespace {
 struct StreamHugeSim : StreamSim {
         const char *name() const override { return "streamhuge"; }
